@@ -8,6 +8,7 @@ import MTVerif.Model.Witness
 import MTVerif.Model.Rewrite
 import MTVerif.Model.Trigger
 import MTVerif.Model.GetStub
+import MTVerif.Model.Store
 namespace MT
 open Sexp
 
@@ -76,6 +77,21 @@ def rwOf : Sexp → Except String RW
   | .list [.atom "largeUnion", n] => do .ok (.largeUnion (← natOf n))
   | s => .error s!"bad rewriter {s}"
 
+def optStrOf : Sexp → Except String (Option String) | .atom "NULL" => .ok none | s => (strOf s).map some
+def srowOf : Sexp → Except String (Option Store.SRow)
+  | .atom "none" => .ok none
+  | .list [.atom "r", m, q, a, r, y] => do
+      .ok (some { module := ← strOf m, qualname := ← strOf q, args := ← strOf a, ret := ← optStrOf r, yld := ← optStrOf y })
+  | s => .error s!"bad store row: {s}"
+def storeOpOf : Sexp → Except String Store.Op
+  | .atom "reopen" => .ok .reopen
+  | .list (.atom "add" :: rs) => do .ok (.add (← rs.mapM srowOf))
+  | .list (.atom "addInt" :: n :: rs) => do .ok (.addInterrupted (← rs.mapM srowOf) (← natOf n))
+  | s => .error s!"bad store op: {s}"
+def sexpOfSRow (r : Store.SRow) : Sexp :=
+  let o (x : Option String) : Sexp := match x with | none => .atom "NULL" | some s => .str s
+  .list [.atom "r", .str r.module, .str r.qualname, .str r.args, o r.ret, o r.yld]
+
 def handle (st : DState) (req : Sexp) : Except String (DState × Sexp) :=
   match req with
   | .list (.atom "hier" :: xs) => do
@@ -125,6 +141,16 @@ def handle (st : DState) (req : Sexp) : Except String (DState × Sexp) :=
               | .warning e => .list [.atom "warning", sexpOfErr e]
               | .summary n => .list [.atom "summary", .atom (toString n)]
               | .noTraces => .atom "noTraces"))])
+  | .list [.atom "store", .list ops, q] => do
+      let s := Store.run (← ops.mapM storeOpOf)
+      match q with
+      | .list [.atom "filter", m, p, n] =>
+          let p' ← (match p with | .atom "none" => .ok none | p => (strOf p).map some)
+          .ok (st, .list [.atom (toString (Store.distinctMatching s (← strOf m) p')),
+                          .list ((Store.filter s (← strOf m) p' (← natOf n)).map sexpOfSRow),
+                          .list ((Store.filter s (← strOf m) p' 1000000).map sexpOfSRow)])
+      | .list [.atom "modules"] => .ok (st, .list ((Store.listModules s).map (fun m => .str m)))
+      | _ => .error "bad store query"
   | .list [.atom "trig", r, t] => do
       .ok (st, sexpOfBool ((← tyOf t).trig (← rwOf r)))
   | .list [.atom "normal", t] => do
